@@ -135,7 +135,7 @@ class Interp(container.ContainerInterp):
     def __init__(self, ctx, init):
         self.hole = init.get("hole")
         self.matrix = {}
-        super().__init__(ctx, init, {"C03", "C11"} if self.hole is None else set())
+        super().__init__(ctx, init, {"C03", "C04", "C11"} if self.hole is None else set())
         if self.hole is not None:
             self._punch_hole(self.hole)
 
@@ -147,7 +147,7 @@ class Interp(container.ContainerInterp):
         lv = reftdf.live(parsed)
         if len(lv) < 2 or len(lv) >= self.N:
             self.hole = None
-            self.groups = {"C03", "C11"}
+            self.groups = {"C03", "C04", "C11"}
             self.enter()
             return
         pos = 1 + k % (len(lv) - 1)
